@@ -7,7 +7,10 @@ import vf
 
 KF_BUILTIN = "builtin-collector-name-collision"
 BUILTIN = [b"statsd_exporter_lines_total", b"statsd_exporter_loaded_mappings", b"go_goroutines"]
-NAMES = [b"x", b"x_sum", b"x_count", b"x_bucket", b"x_total", b"x.sum", b"x-sum", b"x\xef\xbf\xbdy"]
+import gen_line as GL
+LONG = GL.LONG_NAME
+NAMES = [b"x", b"x_sum", b"x_count", b"x_bucket", b"x_total", b"x.sum", b"x-sum", b"x\xef\xbf\xbdy",
+         b"x_count_sum", b"x_sum_bucket", b"x_sum_count", LONG, LONG + b"_sum", LONG + b"_bucket", LONG[:121], LONG[:121] + b"_count", b"x\xd9\xa3", b"x_"]
 TYPES = [b"c", b"g", b"ms", b"h"]
 
 
